@@ -12,9 +12,12 @@ import (
 func Timeout(timeout time.Duration) func(message.HandlerFunc) message.HandlerFunc {
 	return func(h message.HandlerFunc) message.HandlerFunc {
 		return func(msg *message.Message) ([]*message.Message, error) {
+			originalCtx := msg.Context()
 			ctx, cancel := context.WithTimeout(msg.Context(), timeout)
 			defer func() {
 				cancel()
+				// the deadline applies to this call only: don't leave a cancelled context on the message
+				msg.SetContext(originalCtx)
 			}()
 
 			msg.SetContext(ctx)
